@@ -12,7 +12,9 @@ CLAIM = dict(
           "independently written semantics of the region word (level in bits 17:16, base masked to the level, 16 block "
           "bits), every requested core of every requested chip exactly once and nothing else; the list is strictly "
           "increasing in (region, core mask), hence in (region << 32) | mask and (region << 18) | mask; a level-3 word "
-          "from get_region_for_chip selects that chip only. The executable oracle the driver runs on the "
+          "from get_region_for_chip selects that chip only. For a tree constructed directly at any level (public class "
+          "RegionCoreTree) every in-square insertion sequence keeps the invariant and the node's set plus the squares of "
+          "the cores it reported full is exactly the inserted set (subtree_insert). The executable oracle the driver runs on the "
           "implementation's own output is proved to decide exactly these predicates for all inputs (exactB_iff, "
           "nodupB_iff, strictB_iff). The word semantics is proved identical to the one C09's machine model uses "
           "(c09_selects_agree) and the output is proved to meet the contract C09's load theorems assume of "
@@ -32,7 +34,7 @@ THEOREMS = ["region_word_selects", "single_chip", "add_inv", "insert_all", "comp
             "compress_exact", "exact_select_iff", "compress_sorted", "compress_keys", "chipsOf_spec",
             "exactB_iff", "nodupB_iff", "strictB_iff", "oracle_decides",
             "c09_selects_agree", "c09_selectsCore_agree", "c09_strictlyIncreasing_agree",
-            "c09_regions_contract", "c09_compressOK"]
+            "c09_regions_contract", "c09_compressOK", "subtree_insert"]
 
 RULE = ("target sets built from shapes: sparse points (whole grid or a small window), aligned full blocks of side "
         "4/16/64 (and 256 in the thorough tier) for a random core set with 0-3 holes (a hole removes some or all cores "
